@@ -318,6 +318,14 @@ def run(prog: Program, chk: Check):
               f"{ns} manager states x every control frame: never registered for ALL and an individual type at once",
               "a module can be registered for ALL_MESSAGE_TYPES and an individual type at once (duplicate delivery): " + (dbl[0][2] if dbl else ""))
 
+    # ---- R9 who is "subscribed at that moment": the routing table follows the control frames ------------------------------
+    R9 = chk.rule("C01-R9", "after every SUBSCRIBE / UNSUBSCRIBE / PAUSE / RESUME frame the subscription table holds exactly what the frame asked for", 1,
+                  "a module registered under another type than it asked for receives messages it did not subscribe to and misses the ones it did")
+    rt = [v for v in mviol if v[0] == "route"]
+    R9.decide(not rt, f"{MGR}::MessageManager|table-follows-frames", where(prog.func(MGR, "MessageManager.add_subscription")),
+              f"{ns} manager states x every control frame ({nt} transitions): registered set afterwards = what the frame asked for",
+              "the subscription table does not follow the control frames: " + (f"{rt[0][1]}: {rt[0][2]}" if rt else ""))
+
     # ---- R7 readiness is polled for every connection, in the round in which it is used ---------------------------------
     R7 = chk.rule("C01-R7", "wlist is refreshed from a write-select over every connection before a round's frames are serviced", 2,
                   "a connection left out of the poll is treated as 'cannot accept data' although it can: the message is dropped for a subscribed, writable module")
